@@ -112,6 +112,9 @@ def _mk_enum(**s):
     return 0 if e == 0 else (1 if e == 1 else 5)
 
 
+REAL_EXP_BOUNDARIES = (-8388610, -65538, -32770, -258, -130, 126, 254, 32766, 65534, 8388606)
+
+
 def _mk_real(**s):
     return ("R", s["m"], s["e"])
 
@@ -132,6 +135,10 @@ def leaves():
     L.append(Entry("oid2", OID, {"a0": ("const", 2), "a1": I(0, 2 ** 28), "a2": I(0, 2 ** 21), "a3": I(0, 1), "k": I(2, 3)}, _mk_oid, ["leaf", "univ"]))
     L.append(Entry("bits", BITS, {"nb": I(0, 10), "pat": I(0, 2)}, _mk_bits, ["leaf", "univ", "string", "bits"], thorough={"nb": I(0, 18)}))
     L.append(Entry("real", REAL, {"m": I(-20, 20), "e": I(-9, 9)}, _mk_real, ["leaf", "univ", "real"], thorough={"m": I(-63, 63), "e": I(-31, 31)}))
+    # exponent octets on the 127/128, 255/256, 32767/32768 ... sign boundaries (the exponent is enumerated by the engine, so it is
+    # taken from a window of 3 around each boundary rather than from an interval)
+    L.append(Entry("real_exp", REAL, {"mi": I(0, 2), "bi": I(0, len(REAL_EXP_BOUNDARIES) - 1), "d": I(0, 2)},
+                   lambda **s: ("R", (1, 3, -5)[s["mi"]], REAL_EXP_BOUNDARIES[s["bi"]] + s["d"]), ["leaf", "univ", "real"], tier="thorough"))
     L.append(Entry("real_inf", REAL, {"f0": B}, lambda **s: "inf" if s["f0"] else "-inf", ["leaf", "univ", "real"]))
     L.append(Entry("utf8", UTF8, {"n": I(0, 2), "c0": I(0, 0x7FF), "c1": I(0, 0x7FF)}, lambda **s: utf8_of([s["c0"], s["c1"]][: s["n"]]), ["leaf", "univ", "string", "char"]))
     for kind in ("IA5", "Visible", "Numeric", "Printable", "ObjectDescriptor"):
